@@ -159,7 +159,7 @@ impl C14 {
         C14 {
             tier,
             seed,
-            n: scaled(tier.pick(6, 120), scale),
+            n: scaled(tier.pick(24, 400), scale),
         }
     }
 
